@@ -118,13 +118,18 @@ class Source:
                     return k
         raise AnchorLost(f'{self.path}: unbalanced brackets from {open_idx}')
 
-    def find_all(self, pattern, span=None, flags=0):
+    def find_all(self, pattern, span=None, flags=0, on_text=False):
         a, b = span if span else (0, len(self.mask))
         rx = re.compile(pattern, flags)
+        if on_text:
+            # search the original text (so string literals can be part of an anchor) but only accept
+            # matches that start in code, not inside a comment or literal
+            return [m for m in rx.finditer(self.text, a, b)
+                    if self.mask[m.start()] == self.text[m.start()] and not self.text[m.start()].isspace()]
         return [m for m in rx.finditer(self.mask, a, b)]
 
-    def find_one(self, pattern, span=None, what=None):
-        ms = self.find_all(pattern, span)
+    def find_one(self, pattern, span=None, what=None, on_text=False):
+        ms = self.find_all(pattern, span, on_text=on_text)
         if len(ms) != 1:
             raise AnchorLost(f'{self.path}: anchor {what or pattern!r} matched {len(ms)} times (need 1)')
         return ms[0]
@@ -149,7 +154,7 @@ class Source:
         preceding attribute / doc-comment lines, sig_start is the start of the line holding
         the keyword, open/close the body braces, end = close+1."""
         if kind == 'impl':
-            pat = r'\bimpl(?:\s*<[^>{]*>)?\s+' + name + r'\s*\{'
+            pat = r'\bimpl(?:\s*<[^{]*?>)?\s+' + name + r'(?:\s*<[^{]*?>)?\s*(?:where[^{]*)?\{'
         elif kind == 'fn':
             pat = r'\bfn\s+' + re.escape(name) + r'\s*[<(]'
         else:
@@ -202,11 +207,11 @@ class Source:
         return (it['open'] + 1, it['close'])
 
     # ---- match arms ---------------------------------------------------------------------------
-    def arm(self, pattern_regex, span, what=None):
+    def arm(self, pattern_regex, span, what=None, on_text=False):
         """Locate a match arm `PATTERN =>` inside span. Returns (arm_start, body_start, body_end)
         where body is either the braced block (including braces) or the expression up to the
         top-level comma."""
-        m = self.find_one(pattern_regex + r'\s*=>', span, what=what or pattern_regex)
+        m = self.find_one(pattern_regex + r'\s*=>', span, what=what or pattern_regex, on_text=on_text)
         k = m.end()
         while self.mask[k].isspace():
             k += 1
